@@ -737,8 +737,19 @@ func wfCond(s *State, lazy int, et types.Type, val Value) *Term {
 			if r.val == nil || r.val.Blob == nil || r.val.Blob.Lazy != lazy {
 				continue
 			}
+			// several key layouts may hold the type (primary / secondary index): pick by literal prefix
+			var chosen []string
+			for _, cand := range spec.([][]string) {
+				if len(cand) > 0 && PrefixOf(MkStr(cand[0]), r.key) == TTrue {
+					chosen = cand
+					break
+				}
+			}
+			if chosen == nil {
+				continue
+			}
 			var ps []*Term
-			for _, p := range spec.([]string) {
+			for _, p := range chosen {
 				switch {
 				case strings.HasPrefix(p, "$"):
 					ps = append(ps, strOf(field(p[1:])))
